@@ -11,6 +11,37 @@ def _rm(ctx, sub, tag):
             pass
 
 
+# Lower bounds on the number of judged cases per class, for a run of 3000 generated signatures (scaled with n).
+# About one fifth of what the generator produces: a change of avo (or of the harness) that makes a whole class of
+# inputs disappear — signatures that no longer build, components that no longer resolve, a route that fails — is an
+# obligation failure instead of a silently smaller sample.
+FLOORS_C07 = {
+    "outcome_ok": 15000, "paths_valid_scalar": 15000, "paths_valid_nonscalar": 7000, "paths_with_deref": 5000,
+    "valid_scalar_of_defined_or_alias_type": 1000, "valid_scalar_of_alias_type": 300,
+    "ok_index_ge_256": 150, "ok_selector_index_ge_10": 400, "ok_variadic_param": 100, "ok_deref_non_gp64": 80,
+    "vars_of_componentless_kind": 80, "gen_embedded_fields": 200,
+    "paths_invalid_i": 3000, "paths_invalid_f": 3000, "paths_invalid_selector": 3000,
+    "paths_invalid_negative_index": 300, "paths_invalid_negative_selector": 1000,
+    "lookup_by_default_name": 500, "sizes_lines": 5000,
+}
+ROUTES = ("direct", "parse", "parse-in-package", "lookup")
+# per generated function of the measured part
+FLOORS_C07X = {"param_leaves": 2, "result_leaves": 0.5, "exec_pairs_run": 0.5, "compiler_size_lines": 1, "deref_loads": 0.1}
+
+
+def _floors(ctx, name, stats, floors, scale):
+    ctx.obligations += 1
+    low = []
+    for k, v in floors.items():
+        need = int(v * scale)
+        if stats.get(k, 0) < need:
+            low.append(f"{k}={stats.get(k, 0)} < {need}")
+    if low:
+        ctx.obligation_failures.append((f"{name}: sample floor", "; ".join(low)))
+    else:
+        ctx.discharged += 1
+
+
 def run(ctx):
     if not ctx.build_harness(["c07.go", "c07x.go"]):
         return
@@ -25,43 +56,99 @@ def run(ctx):
 
     quick = ctx.tier == "quick"
     nontrivial = lambda req, resp: resp != "err"
+    # 0. corpus: hand-picked request lines (past findings, seeded changes, boundary shapes) replayed through the real code
+    ctx.run_corpus("c07", nontrivial=nontrivial)
+    ctx.obligations += 1
+    if ctx.coverage.get("corpus_cases", 0) < 40:
+        ctx.obligation_failures.append(("c07: corpus", f"only {ctx.coverage.get('corpus_cases', 0)} corpus lines replayed"))
+    else:
+        ctx.discharged += 1
+    _rm(ctx, "c07", "-corpus")
     # 1. exact model comparison + acceptors on generated signatures x component paths (negative indices and
     #    selectors — regression of F3, fixed in aab3c52 — are part of the normal stream and of the corpus)
     chunks = [(3000, 0)] if quick else [(6000, k) for k in range(10)]
     for n, k in chunks:
         tag = "" if quick else f"-{k}"
-        ctx.differential("c07", n, extra=["-chunk", str(k)], tag=tag, nontrivial=nontrivial)
+        r = ctx.differential("c07", n, extra=["-chunk", str(k)], tag=tag, nontrivial=nontrivial)
         _rm(ctx, "c07", tag)
+        if r is None or ctx.replay:
+            continue
+        st = ctx.coverage.get("input_distribution", {}).get("c07" + tag, {})
+        fl = dict(FLOORS_C07)
+        for rt in ROUTES:
+            st["routes_" + rt] = st.get("route_" + rt, 0) + st.get("route_" + rt + "+build", 0)
+            fl["routes_" + rt] = 30
+        st["routes_build"] = sum(v for kk, v in st.items() if kk.startswith("route_") and kk.endswith("+build"))
+        fl["routes_build"] = 150
+        _floors(ctx, "c07" + tag, st, fl, n / 3000.0)
     # 2. compiler agreement (measured): reflect/unsafe sizes of the real compiler, go vet -asmdecl and
     #    execution of generated stub+asm pairs whose operands are the implementation's resolved addresses
     gen = os.path.join(ctx.dir, "gen")
     xchunks = [(40, 0)] if quick else [(150, k) for k in range(8)]
     for n, k in xchunks:
         tag = "" if quick else f"-{k}"
-        ctx.differential("c07x", n, extra=["-dir", gen, "-chunk", str(k)], tag=tag, timeout=1200)
+        r = ctx.differential("c07x", n, extra=["-dir", gen, "-chunk", str(k)], tag=tag, timeout=1200)
         _rm(ctx, "c07x", tag)
+        if r is None or ctx.replay:
+            continue
+        st = ctx.coverage.get("input_distribution", {}).get("c07x" + tag, {}).get("counts", {})
+        ctx.obligations += 1
+        if st.get("functions", 0) != n:
+            ctx.obligation_failures.append(("c07x: functions", f"{st.get('functions', 0)} of {n} functions judged"))
+        else:
+            ctx.discharged += 1
+        _floors(ctx, "c07x" + tag, st, FLOORS_C07X, n)
     ctx.coverage["rule"] = (
-        "generated signatures (nested structs with padding, zero-size and trailing zero-size fields, arrays of structs, "
-        "complex, strings, slices, pointers, defined types; named/grouped/unnamed/blank parameters, 0..3 results; built "
-        "through go/types directly, gotypes.ParseSignature and ParseSignatureInPackage) x every component path of every "
-        "parameter/result (indices of large arrays sampled) x invalid continuations (wrong kind, missing field, index = len, "
-        "> len, huge, negative; steps after an error; invalid selectors): the real gotypes API's (symbol, displacement, base, "
-        "basic type) or error vs the Lean model (exact), and the implementation's own result judged by the acceptor "
-        "ResolveSpec/MustResolve against the independently written asmdecl layout; Bytes() and the printed TEXT size vs "
+        "hand-picked corpus lines, then generated signatures: nested structs with padding, blank, zero-size and trailing "
+        "zero-size fields, embedded fields (defined, alias and pointer-to-defined types), arrays of structs, arrays of "
+        "256..1200 elements (indices around 255/256, 99/100, 999/1000), complex, strings, slices, pointers, defined types "
+        "and aliases (also of scalars), interface/map/chan/func variables, fields and elements (no components; they shift "
+        "what follows); named/grouped/unnamed/blank parameters, 0..13 parameters and 0..12 results (default names arg10.., "
+        "ret11), variadic last parameter; built through go/types directly, gotypes.ParseSignature, "
+        "ParseSignatureInPackage, LookupSignature on a type-checked package declaring the function (the route of "
+        "build.Implement), NewSignatureVoid; components selected through Tuple.At/Lookup or, for a quarter of the "
+        "signatures, through the package-level build.Param/ParamIndex/Return/ReturnIndex on a build.Context holding the "
+        "signature; x component paths of every parameter/result (every path for one signature in 16 and for the corpus, "
+        "else up to 40 sampled per variable; indices of large arrays sampled; Dereference through every 64-bit GP "
+        "register and AL/X0/Y3) x invalid continuations (wrong kind, missing field, index = len, > len, huge, negative; "
+        "steps after an error; invalid selectors; Lookup by a default name): the real gotypes API's (symbol, "
+        "displacement, base, basic type) or error vs the Lean model (exact), and the implementation's own result judged "
+        "by the acceptor ResolveSpec/MustResolve against the independently written asmdecl layout — the offset is pinned "
+        "by walking the type tree (pathComps), not by the flattened name alone; Bytes() and the printed TEXT size vs "
         "asmdecl's argument size; model sizeof/alignof/offsetsof vs go/types gc/amd64 on every generated type and vs the "
-        "compiler (reflect) on a sample; go vet -asmdecl and execution on generated stub+asm pairs. "
+        "compiler (reflect) on a sample; go vet -asmdecl and execution on generated stub+asm pairs. Lower bounds on the "
+        "number of judged cases per class (FLOORS_C07, FLOORS_C07X) are obligations. "
         "non-trivial = response other than `err`")
     ctx.assumptions += [
         "gc/amd64 only (WordSize = MaxAlign = 8), ABI0 assembly functions",
-        "types: basic kinds, pointers, slices, arrays, structs, defined types over these; no interfaces/maps/chans/funcs/"
-        "type parameters; recursive types stand for their finite unfoldings (a path of length n inspects n levels; sizes "
-        "never look through a pointer)",
-        "names in a parameter list are non-empty identifiers (Sig.WF); defined scalar types (type T int) are left free: "
-        "avo's Resolve reports `component is not primitive` for them",
+        "types: basic kinds, pointers, slices, arrays, structs, defined types and aliases over these, and "
+        "interface/map/chan/func as component-less kinds that take part in the layout; no type parameters; recursive types "
+        "stand for their finite unfoldings (a path of length n inspects n levels; sizes never look through a pointer)",
+        "names in a parameter list are non-empty identifiers (Sig.WF)",
+        "a blank name may denote any of the variables/fields declared `_` (Go cannot select them; avo takes the last "
+        "blank variable and the first blank field); every other name denotes exactly one component and its offset is pinned",
+        "for a pointer component the reported basic type may be any pointer-sized integer kind (uintptr, unsafe.Pointer, "
+        "uint64); whether Lookup finds an unnamed variable by its default name (arg1, ret) is left free (acceptor only)",
+        "sizes and offsets are natural numbers in the model: types whose size reaches 2^63 (e.g. [1<<61]uint64), which the "
+        "compiler rejects, are out of scope — gotypes computes in int/int64 and would wrap there; Index arguments are "
+        "generated over the whole int range",
+        "a promoted field of an embedded struct is not a component name for go vet (x_inner, not x_T_inner is unknown): "
+        "Field(promoted) is an error in avo and in the model",
         "the asmdecl layout (names, offsets, sizes, argument size) is the toolchain's truth for assembly functions; it is "
         "re-measured on every run with go vet, reflect and execution on a sample",
+        "Dereference echoes whatever register it is given (also non-64-bit and vector registers, which cannot hold a "
+        "pointer; a nil register is not generated); build.Dereference (allocating a virtual register and loading the "
+        "pointer) belongs to C08",
     ]
     ctx.trusted += [
         "go/types SizesFor(gc, amd64), cmd/compile (reflect type data, ABI0 frame layout), go vet asmdecl and the host CPU as oracles",
-        "Drv/C07 request parsing, asmText rendering and the harness's encoders (exercised by the mutation self-test)",
+        "Drv/C07 request parsing, asmText rendering and the harness's encoders/decoders (exercised by the mutation self-test)",
+        "measured part (c07x): the verdicts of go vet and of the executed program are counted in Go and passed through the "
+        "trivial acceptor accept-count; names are made unambiguous for vet's flat naming scheme first (named variables "
+        "become p<i>/r<i>, unnamed ones keep the default names arg<i>/ret<i>; `_` inside field names and non-ASCII letters "
+        "are removed, at most one blank field per struct), so vet never sees colliding flattened names or blank "
+        "variables; Lean's asmComponents is not compared with vet's variable table directly but through the absence of "
+        "diagnostics on addresses the model agrees with",
+        "build.Implement itself (packages.Load of a package on disk) is not called: its route LookupSignature is, on a "
+        "package type-checked in memory",
     ]
